@@ -28,6 +28,11 @@ CONSTANTS
   ErBatches = {1, 2, 100}
   SubLens = {1, 2, 3}
   SubUtts = 3
+  SubRunData <- SubRunData3
+  SubRunCrits <- SubRunCritsQuick
+  SubRunStyles = {"copy", "symlink", "link"}
+  SubRunMax = 3
+  SubRunFault = FALSE
   MomAli <- AliSeqsQuick
   MomRef <- MomRefQuick
   MomUtts = 2
@@ -48,5 +53,10 @@ INVARIANT TgInverse
 INVARIANT ErBatchFree
 INVARIANT ErUniformExact
 INVARIANT SubOK
+INVARIANT SubRunIdentical
+INVARIANT SubRunExact
+INVARIANT SubRunRaises
+INVARIANT SubRunMustRaise
+INVARIANT SubRunLogFree
 INVARIANT Export
 CHECK_DEADLOCK FALSE
